@@ -7,6 +7,7 @@ import (
 	"regexp/syntax"
 	"sort"
 	"strings"
+	"unicode/utf8"
 
 	"golang.org/x/tools/go/ssa"
 )
@@ -4096,7 +4097,7 @@ func c20r14(c *Ctx, r *Report) {
 // c12r11: the tmux / proxy relaunch script rebuilds fzf's own command line from os.Args with
 // escapeSingleQuote. Every word has to come out quoted — an "obviously safe" word left bare includes the EMPTY
 // word, which then vanishes from the command line and shifts the arguments after it (round-7 mutant C19c7:
-// `--walker-skip ''` lost its value in the popup and swallowed the next option).
+// `--walker-skip ”` lost its value in the popup and swallowed the next option).
 func c12r11(c *Ctx, r *Report) {
 	l := c.L
 	r.rule("C12-R11", "A (every return is a quoted word)", "P1",
@@ -4444,7 +4445,7 @@ func c10r7(c *Ctx, r *Report) {
 		"{N} placeholders and --nth/--with-nth/--accept-nth cut the last field differently for the same delimiter")
 	type sets struct {
 		lit, re map[string]bool
-		pos      token.Pos
+		pos     token.Pos
 	}
 	all := map[*ssa.Function]*sets{}
 	for _, fn := range l.AllFuncs() {
@@ -4937,4 +4938,85 @@ func c15r12(c *Ctx, r *Report) {
 		esc = pathAvoiding(entry, isReturn, isOrg, nil)
 	}
 	r.check(esc == nil, relName(cl)+":the cursor record is reset on every path", cl.Pos(), cl, "origin() on every path", "a path through Clear does not call origin(): the cursor record keeps its old row while the terminal's cursor is at the top")
+}
+
+// c01r9: the chunk-cache key of an extended pattern is the list of its cacheable terms joined by a separator.
+// Two different term lists must not produce the same key, so the separator must be something no term can
+// contain. A term is `string([]rune)`, i.e. always valid UTF-8 — hence a separator that is NOT valid UTF-8 is
+// safe, and any valid one (TAB, since D34 keeps a TAB of the query in the term) is not (D40: `a b` and
+// `a<TAB>b` shared the key "a\tb": in interactive mode one query was answered from the other's cached chunk
+// results).
+func c01r9(c *Ctx, r *Report) {
+	l := c.L
+	r.rule("C01-R9", "H + D (the separator is outside the alphabet of the joined strings)", "P1",
+		"in Pattern.buildCacheKey, every string joined into the key is a conversion of a []rune value, and the constant separator passed to strings.Join either is not valid UTF-8 or is replaced in every joined string (strings.ReplaceAll) by a constant that is not valid UTF-8",
+		"the interactive match list depends on the query history: a query containing the separator is served from the cache entry of a multi-term query (and vice versa)")
+	bk := l.Fn("fzf", "(*Pattern).buildCacheKey")
+	if bk == nil {
+		r.unest("anchors", token.NoPos, nil, "anchor Pattern.buildCacheKey", "cannot resolve")
+		return
+	}
+	n := 0
+	eachInstr(bk, func(in ssa.Instruction) {
+		call, ok := in.(*ssa.Call)
+		if !ok || calleeName(call.Common()) != "strings.Join" {
+			return
+		}
+		n++
+		sep, isK := constString(call.Call.Args[1])
+		// the joined elements: values appended to the slice. Each is a conversion of a []rune (valid UTF-8), taken as
+		// it is when the separator is not valid UTF-8, or passed through strings.ReplaceAll(x, sep, R) with R a
+		// constant that is not valid UTF-8 (so the replacement is one-to-one on valid strings and removes sep)
+		fromRunes := func(v ssa.Value) bool {
+			cv, ok := v.(*ssa.Convert)
+			if !ok {
+				return false
+			}
+			sl, ok := cv.X.Type().Underlying().(*types.Slice)
+			return ok && types.Identical(sl.Elem().Underlying(), types.Typ[types.Int32])
+		}
+		okAll, nEl := true, 0
+		for w := range backwardSlice(call.Call.Args[0], func(*ssa.CallCommon) bool { return true }, nil) {
+			ap, ok := w.(*ssa.Call)
+			if !ok || calleeName(ap.Common()) != "builtin.append" {
+				continue
+			}
+			for v := range backwardSlice(ap.Call.Args[1], nil, nil) {
+				al, ok := v.(*ssa.Alloc)
+				if !ok || al.Referrers() == nil {
+					continue
+				}
+				for _, ref := range *al.Referrers() {
+					ia, ok := ref.(*ssa.IndexAddr)
+					if !ok || ia.Referrers() == nil {
+						continue
+					}
+					for _, r2 := range *ia.Referrers() {
+						s2, ok := r2.(*ssa.Store)
+						if !ok || s2.Addr != ssa.Value(ia) {
+							continue
+						}
+						nEl++
+						switch {
+						case fromRunes(s2.Val) && isK && !utf8.ValidString(sep):
+						default:
+							rc, ok := s2.Val.(*ssa.Call)
+							good := false
+							if ok && calleeName(rc.Common()) == "strings.ReplaceAll" && fromRunes(rc.Call.Args[0]) {
+								o, ok1 := constString(rc.Call.Args[1])
+								nw, ok2 := constString(rc.Call.Args[2])
+								good = ok1 && ok2 && isK && o == sep && !utf8.ValidString(nw) && !strings.Contains(nw, sep)
+							}
+							if !good {
+								okAll = false
+							}
+						}
+					}
+				}
+			}
+		}
+		r.check(isK && okAll && nEl > 0, fmt.Sprintf("%s:key separator #%d cannot occur in a joined term", relName(bk), n), call.Pos(), bk,
+			"terms are string([]rune); the separator is invalid UTF-8, or is replaced in every term by a string that is", fmt.Sprintf("a term can contain the separator %q: two different term lists can have the same key", sep))
+	})
+	r.floor("joins in buildCacheKey", n, 1)
 }
